@@ -4506,6 +4506,57 @@ grid("symdel", "g_radius", _g_radius,
           max_edits=[("1", 1), ("2", 2), ("3", 3)], cbk=[("lev2", "lev2"), ("half", "half")], mcd=[("1", 1), ("2", 2), ("4", 4), ("6", 6)]), cap=60)
 
 
+# frames whose axes carry names (or not): pandas hands the very Index object of an input on to a result more often than one thinks
+@heap
+def dfs_named_index():
+    d0 = pd.DataFrame({"day0": [5, 3, 1]}, index=["c1", "c2", "c3"])
+    d1 = pd.DataFrame({"day7": [4, 4, 2]}, index=pd.Index(["c1", "c2", "c3"], name="clonotype"))
+    d2 = pd.DataFrame({"day14": [9, 1, 1]}, index=["c1", "c2", "c3"])
+    return [d0, d1, d2]
+
+
+@heap
+def df_tcr_named_axes():
+    d = df_tcr()
+    d.index = pd.Index(["t%d" % i for i in range(len(d))], name="clone")
+    d.columns.name = "field"
+    return d
+
+
+def _g_merge_named(H, how, order, sub):
+    L = H["dfs_named_index"]
+    L = {"012": L, "102": [L[1], L[0], L[2]], "02": [L[0], L[2]], "01": L[:2], "21": [L[2], L[1]]}[order]
+    kw = {} if how is None else {"how": how}
+    if sub == "suffixes":
+        return prs.multimerge(L, "index", suffixes=list("abc")[:len(L)], **kw)
+    return prs.multimerge(L, "index", **kw)
+
+
+grid("multimerge", "g_merge_named", _g_merge_named,
+     dict(how=[("default", None), ("left", "left"), ("right", "right"), ("inner", "inner")], order=[(x, x) for x in ("012", "102", "02", "01", "21")],
+          sub=[("plain", "plain"), ("suffixes", "suffixes")]), cap=24)
+
+
+def _g_named_axes(H, fn):
+    d = H["df_tcr_named_axes"]
+    calls = {
+        "pdist": lambda: H["metric_cdr3"].calc_pdist_vector(d), "cdist": lambda: H["metric_beta"].calc_cdist_matrix(d, H["df_tcr"]),
+        "cdrall": lambda: H["metric_cdrall"].calc_pdist_vector(d), "pcDelta": lambda: prs.pcDelta(d, bins=H["bins_arr"]),
+        "hclust": lambda: prs.hierarchical_clustering(d), "downsample": lambda: prs.downsample(d, 3), "pc": lambda: prs.pc(d[["TRBV", "CDR3B"]]),
+        "pc_joint": lambda: prs.pc_joint(d, ["TRBV", "TRBJ"]), "pc_cond": lambda: prs.pc_conditional(d, "Epitope", "CDR3B"),
+        "renyi": lambda: prs.renyi2_entropy(d, "CDR3B", by="Epitope"), "standardize": lambda: prs.standardize_dataframe(d, suppress_warnings=True),
+        "grouped": lambda: prs.pcDelta_grouped(d, "Epitope", "CDR3B", bins=H["bins_arr"]), "cross": lambda: prs.pc_grouped_cross(d, "Epitope", "CDR3B"),
+        "colors": lambda: pp.labels_to_colors_tableau(d["Epitope"]), "tcrdist": lambda: prs.nearest_neighbor_tcrdist(d),
+        "merge": lambda: prs.multimerge([d[["CDR3B"]], H["df_tcr_named_axes"][["TRBV"]]], "index"),
+    }
+    return calls[fn]()
+
+
+grid("standardize", "g_named_axes", _g_named_axes,
+     dict(fn=[(x, x) for x in ("pdist", "cdist", "cdrall", "pcDelta", "hclust", "downsample", "pc", "pc_joint", "pc_cond", "renyi", "standardize", "grouped",
+                               "cross", "colors", "tcrdist", "merge")]), rand=True, io=True)
+
+
 # =============================================================================================
 # random-argument templates: the ARGUMENTS come from a seeded generator A (one fixed value per 'base~<n>' name), drawn from
 # small spaces on purpose, so that two templates of one base often share part of what a careless cache key would look at - the
